@@ -40,6 +40,8 @@ type VerifyOpts struct {
 	OnReturn      func(x *Exec, st *State, fr *Frame, results []Value)
 	MaxPaths      int
 	ForceContract []string
+	SQLProps      []string
+	TxProps       []string
 }
 
 func (p *Program) Explore(key string, opts *VerifyOpts) (*Exec, *FuncReport, error) {
@@ -58,6 +60,8 @@ func (p *Program) Explore(key string, opts *VerifyOpts) (*Exec, *FuncReport, err
 		x.assertProps = opts.PanicProps
 	}
 	x.overflowProps = opts.Overflow
+	x.sqlProps = opts.SQLProps
+	x.txProps = opts.TxProps
 	if opts.MaxPaths > 0 {
 		x.maxPaths = opts.MaxPaths
 	}
